@@ -33,6 +33,7 @@ class Agent:
         self.lcfg = os.path.join(root, "listener.yaml")
         open(self.lcfg, "w").write("saslauthd:\n  listen:\n  - %s\nhttp:\n  listen:\n  - 127.0.0.1:%d\nldap:\n  listen:\n  - 127.0.0.1:%d\n" % (
             self.sock, self.http, self.ldap))
+        self._frag = 0
         self.exe = ctx.build_agent()
         self.drv = ctx.build("./cmd/storedrv")
         self.proc = subprocess.Popen([self.exe, "--store", self.cfg, "run", "--listener", self.lcfg], stdout=subprocess.PIPE,
@@ -73,14 +74,34 @@ class Agent:
         s.settimeout(5)
         s.connect(self.sock)
         msg = b"".join(struct.pack(">H", len(x)) + x for x in (user, pw, b"imap", b"realm"))
-        s.sendall(msg)
-        s.shutdown(socket.SHUT_WR)
+        # fragmentation: the verdict must not depend on how the bytes arrive (segments ending inside a field body,
+        # inside a length prefix, byte by byte)
+        mode = (len(user) + len(pw) + self._frag) % 4
+        self._frag += 1
+        try:
+            if mode == 0:
+                s.sendall(msg)
+            else:
+                cuts = {1: [1, 2, 3 + len(user) // 2, 2 + len(user) + 1, 4 + len(user) + max(1, len(pw) // 2)],
+                        2: list(range(1, min(len(msg), 40))), 3: [2 + len(user) + 2 + max(1, len(pw) - 1)]}[mode]
+                last = 0
+                for c in sorted(set(x for x in cuts if 0 < x < len(msg))):
+                    s.sendall(msg[last:c])
+                    time.sleep(0.002)
+                    last = c
+                s.sendall(msg[last:])
+            s.shutdown(socket.SHUT_WR)
+        except OSError:
+            pass        # an over-limit field is refused as soon as its length prefix is seen: the server answers and closes
         data = b""
-        while True:
-            b = s.recv(65536)
-            if not b:
-                break
-            data += b
+        try:
+            while True:
+                b = s.recv(65536)
+                if not b:
+                    break
+                data += b
+        except OSError:
+            pass
         s.close()
         if len(data) < 4:
             return False
@@ -172,6 +193,62 @@ def instantiate(case):
     return user, pw
 
 
+def burst(ctx, ag):
+    """Many simultaneous logins on one listener, right and wrong credentials mixed: every answer is the caller's own."""
+    n = 0
+    for name, fn in (("sasl", ag.sasl), ("basic", ag.basic), ("json", ag.jsonapi), ("ldap", ag.ldapbind)):
+        jobs = []
+        for i in range(600 if ctx.tier == "quick" else 4000):
+            u = [b"alice", b"bob", b"carl"][i % 3]
+            right = i % 2 == 0
+            jobs.append((u, RIGHT[u.decode()] if right else b"wrong-%d" % i, right))
+        def one(j):
+            try:
+                return j, fn(j[0], j[1])
+            except Exception as ex:
+                return j, repr(ex)
+        with concurrent.futures.ThreadPoolExecutor(max_workers=64) as ex:
+            for (u, pw, right), got in ex.map(one, jobs):
+                n += 1
+                if got is True and not right:
+                    ctx.violation("C04", "concurrent-logins:wrong-password-accepted:" + name, "user %r password %r accepted while 64 logins were in flight" % (u, pw[:20]))
+                elif got is False and right:
+                    ctx.violation("C04", "concurrent-logins:right-password-denied:" + name, "user %r denied while 64 logins were in flight" % u)
+                elif got not in (True, False):
+                    ctx.violation("C04", "concurrent-logins:error:" + name, str(got))
+    return n
+
+
+def history(ctx, ag):
+    """Verdicts follow the store through management operations made while the agent runs: a successful login, then the
+    password is changed / the user removed by a separate CLI process, then the old credentials again."""
+    n = 0
+    fns = {"sasl": ag.sasl, "basic": ag.basic, "json": ag.jsonapi, "ldap": ag.ldapbind, "cli": ag.cli}
+    def cli(*args):
+        return subprocess.run([ag.exe, "--store", ag.cfg] + list(args), stdout=subprocess.PIPE, stderr=subprocess.STDOUT, timeout=20).returncode
+    for i, (name, fn) in enumerate(fns.items()):
+        user = ("hist%d" % i).encode()
+        p1, p2 = b"first password %d" % i, b"second password %d" % i
+        if cli("add", user.decode(), p1.decode()) != 0:
+            ctx.inconclusive.append("could not add %r through the CLI" % user)
+            continue
+        steps = [("after-add", p1, True), ("after-add-again", p1, True)]
+        for label, pw, want in steps:
+            n += 1
+            if fn(user, pw) is not want:
+                ctx.violation("C04", "history:%s:%s" % (name, label), "expected %s" % want)
+        cli("update", user.decode(), p2.decode())
+        for label, pw, want in (("old-password-after-update", p1, False), ("new-password-after-update", p2, True)):
+            n += 1
+            if fn(user, pw) is not want:
+                ctx.violation("C04", "history:%s:%s" % (name, label), "store verdict is %s, the frontend says otherwise" % want)
+        cli("remove", user.decode())
+        n += 1
+        if fn(user, p2) is not False:
+            ctx.violation("C04", "history:%s:login-after-remove" % name, "a removed user is still accepted")
+    return n
+
+
 def run(ctx):
     thorough = ctx.tier == "thorough"
     res = ctx.run_tlc("Frontends.tla", "MC_Frontends.cfg", workers=1, timeout=300)
@@ -195,6 +272,8 @@ def run(ctx):
             return (e, user, pw, want, got, None)
         with concurrent.futures.ThreadPoolExecutor(max_workers=16) as ex:
             results = list(ex.map(one, enumerate(cases)))
+        nburst = burst(ctx, ag)
+        nhist = history(ctx, ag)
     finally:
         ag.stop()
     for e, user, pw, want, got, err in results:
@@ -214,7 +293,7 @@ def run(ctx):
             ctx.violation("C04", "denied-although-store-accepts:" + key, "user %r password %r..: store accepts, frontend denies" % (user[:40], pw[:24]))
     cov = ctx.coverage
     cov.update({"states": res["distinct"], "transitions": res["generated"], "traces_validated_against_impl": n, "evaluations": n,
-                "distinct_nontrivial": len(cases), "accepted": accepts,
+                "distinct_nontrivial": len(cases), "accepted": accepts, "concurrent_logins": nburst, "history_steps": nhist,
                 "rule": "every (transport, user-name class, password class) case of Frontends is instantiated with real bytes and submitted to "
                         "the running agent binary (saslauthd socket, HTTP basic-auth, JSON API, LDAP simple bind, CLI); the expected verdict is "
                         "store.Dir.Authenticate on the same directory for the name the module says the transport must use"})
